@@ -77,7 +77,8 @@ Inductive mres :=
   | MNone | MB (b : bool) | MQ (q : Q) | MVQ (v : list Q) | MBoxQ (b : list Q * list Q)
   | MF (x : float) | MVF (v : list float) | MVsF (vs : list (list float))
   | MAng (x y : float)                        (* the pair handed to atan2 *)
-  | MAngles (l : list float)                  (* angles of the n-th roots *)
+  | MAngles (l : list float) (unit : bool) (r : float) (n : Z)
+      (* angles of the n-th roots; their modulus: the generated radius when normalising, else the positive x with x^n = r *)
   | MPer (x : float)                          (* an angle, up to the 2 pi ambiguity at the branch cut *)
   | MExc (e : exn) | MBad.
 
@@ -111,6 +112,9 @@ Definition vf_agree (a b : list float) : bool :=
 Definition two_pi : float := PrimFloat.mul (mkf 2 0) fpi.
 Definition tol6 : float := mkf 4722366482869645 (-72).   (* 1e-6: angles near the branch cut *)
 
+Definition fpowz (x : float) (n : Z) : float :=
+  fold_right (fun _ acc => PrimFloat.mul x acc) PrimFloat.one (zrange n).
+
 Definition agree (m : mres) (r : robs) : bool :=
   match m, r with
   | MNone, RNone => true
@@ -130,13 +134,19 @@ Definition agree (m : mres) (r : robs) : bool :=
       else fagree (PrimFloat.div x n) c && fagree (PrimFloat.div y n) s
   | MPer a, RF b =>
       fagree a b || fagree (PrimFloat.add a two_pi) b || fagree (PrimFloat.sub a two_pi) b
-  | MAngles l, RRoots rs =>
-      (* same number of roots; each of modulus 1 and of phase congruent to the model's angle *)
+  | MAngles l unit r n, RRoots rs =>
+      (* same number of roots; each of phase congruent to the model's angle (when its modulus is not 0) and of the right
+         modulus: the generated m_root_radius when normalising, else by the defining equation |z|^n = r *)
+      let rho := m_root_radius float Fops true r (mkf n 0) in
       Nat.eqb (List.length l) (List.length rs) &&
       forallb2 (fun a (z : float * float * float) =>
                   let '(re, im, ph) := z in
-                  fagree (PrimFloat.add (PrimFloat.mul re re) (PrimFloat.mul im im)) PrimFloat.one &&
-                  PrimFloat.leb (PrimFloat.abs (m_angle_diff float Fops a ph)) tol6) l rs
+                  let m := PrimFloat.sqrt (PrimFloat.add (PrimFloat.mul re re) (PrimFloat.mul im im)) in
+                  (if unit then fagree m rho
+                   else PrimFloat.leb (PrimFloat.abs (PrimFloat.sub (fpowz m n) r))
+                                      (PrimFloat.mul (PrimFloat.mul tol9 (mkf 64 0)) r)) &&
+                  (PrimFloat.eqb m PrimFloat.zero ||
+                   PrimFloat.leb (PrimFloat.abs (m_angle_diff float Fops a ph)) tol6)) l rs
   | MExc a, RExc b => exn_eqb a b
   | _, RSkip => true
   | _, _ => false
@@ -241,7 +251,10 @@ Definition run_fn (f : fn) (a : list (list Q)) (ko : option nkind) (sc : list Q)
   | FRoots =>
       (* sc = [re; im; n], fl = [t] with (r, t) = cmath.polar(c) *)
       let n := Qnum (S 2%nat) in
-      MAngles (m_roots_angles float FO (L 0%nat) (Z.to_nat n))
+      (* sc = [re; im; n; nz] with nz = 1 / 0 / -1 (normalize True / False / omitted), fl = [t; r] = cmath.polar(c) *)
+      let nz := Qnum (S 3%nat) in
+      let unit := if (nz <? 0)%Z then dflt_m_roots_normalize Q QO else (nz =? 1)%Z in
+      MAngles (m_roots_angles float FO (L 0%nat) (Z.to_nat n)) unit (L 1%nat) n
   end.
 
 (* one call: model answer, new state (boxes created / padded) *)
